@@ -11,12 +11,13 @@ Line protocol of the C10 model (one s-expression in, one out):
   (intnormeq IEXP IEXP)    -> IEXP                       int_norm_eq: left side of the resulting `lhs = 0`
   (topoly EXPR)            -> ((((atom power) ...) num den) ...)   convert_to_poly (PolyModel.lean)
   (frompoly EXPR)          -> EXPR                       from_poly (convert_to_poly e)
+  (bodycmp ONE NEXP NEXP)  -> lt | eq | gt               fast_compare on monomial bodies / atoms
   (isnf ONE NEXP)          -> T | F                      the normal-form predicate of norm_idem
 TREE = n | (n L R);  TERM = (a n) | (c F A) | (l x BODY);  PAT = (v n) | (a n) | (c F A)
 CE   = all | no | (rewr L R) | (then A B) | (else A B) | (try A) | (comb A B) | (comb1 A) | (arg A)
      | (fun A) | (arg1 A) | (binop A) | (abs A) | (sub A) | (repeat A) | (bottom A) | (top A ...)
      | (topsweep A) | (every A ...)
-NEXP = (at id size) | (num n) | (add X Y) | (mul X Y) | (suc X)
+NEXP = (at id size fsz hgt) | (num n) | (add X Y) | (mul X Y) | (suc X)
 -/
 open Holpy Holpy.C10
 
@@ -79,7 +80,9 @@ partial def ceOf : Sexp → Option CE
   | _ => none
 
 partial def nexpOf : Sexp → Option NExp
-  | .list [.atom "at", i, sz] => do some (.atom (← i.toNat?) (← sz.toNat?))
+  | .list [.atom "at", i, sz] => do some (.atom (← i.toNat?) { size := (← sz.toNat?) })
+  | .list [.atom "at", i, sz, fsz, hgt] => do
+    some (.atom (← i.toNat?) { size := (← sz.toNat?), fsz := (← fsz.toNat?), hgt := (← hgt.toBool?) })
   | .list [.atom "num", n] => do some (.num (← n.toNat?))
   | .list [.atom "add", a, b] => do some (.add (← nexpOf a) (← nexpOf b))
   | .list [.atom "mul", a, b] => do some (.mul (← nexpOf a) (← nexpOf b))
@@ -87,7 +90,7 @@ partial def nexpOf : Sexp → Option NExp
   | _ => none
 
 partial def nexpTo : NExp → Sexp
-  | .atom i sz => .list [.atom "at", Sexp.ofNat i, Sexp.ofNat sz]
+  | .atom i sh => .list [.atom "at", Sexp.ofNat i, Sexp.ofNat sh.size, Sexp.ofNat sh.fsz, Sexp.ofBool sh.hgt]
   | .num n => .list [.atom "num", Sexp.ofNat n]
   | .add a b => .list [.atom "add", nexpTo a, nexpTo b]
   | .mul a b => .list [.atom "mul", nexpTo a, nexpTo b]
@@ -182,6 +185,14 @@ def handle (line : String) : String :=
     match pexpOf e with
     | some e => toString (pexpTo (Holpy.C10.Poly.fromPoly (Holpy.C10.Poly.toPoly e)))
     | none => "bad-op"
+  | some (.list [.atom "bodycmp", one, a, b]) =>
+    match one.toNat?, nexpOf a, nexpOf b with
+    | some o, some a, some b =>
+      match fastCmp o a b with
+      | .lt => "lt"
+      | .eq => "eq"
+      | .gt => "gt"
+    | _, _, _ => "bad-op"
   | some (.list [.atom "isnf", one, t]) =>
     match one.toNat?, nexpOf t with
     | some o, some t => toString (Sexp.ofBool (isNF o t))
